@@ -159,7 +159,10 @@ def enumerate_cases(tier, seed):
     # B. carvers: all four (output_dtype, dropna) combinations
     for carver in ("binary", "continuous"):
         for kind in ("ORD", "QNT", "CAT", "NUMCAT"):
-            tabs, tr = carving_space.tables(carver, "CAT" if kind == "NUMCAT" else kind, tier, kmax=3 if tier == "quick" else 4)
+            tabs, tr = carving_space.tables(carver, "CAT" if kind == "NUMCAT" else kind, tier, kmax=3)
+            if tier != "quick":  # k=4 over the quick alphabet
+                t4, tr4 = carving_space.tables(carver, "CAT" if kind == "NUMCAT" else kind, "quick", kmax=4, alpha=carving_space.alphabet(carver, "quick"))
+                tabs, tr = tabs + [t for t in t4 if len(t) == 4], tr + tr4
             transitions += tr
             alpha = carving_space.alphabet(carver, tier)
             for cells in tabs:
